@@ -82,6 +82,8 @@ func main() {
 		levels  = flag.String("levels", "RU,RC,RR,SER", "isolation levels")
 		obsAll  = flag.Bool("obs", true, "record the read matrix after every call")
 		bigSize = flag.Bool("big", false, "use the full range of content sizes (slower)")
+		unique  = flag.Bool("uniquekeys", false, "every Set writes a key of its own (nothing is ever overwritten)")
+		reAfter = flag.Int("reopenafter", 0, "no reopen before this step (lets directories fill up one after the other first)")
 	)
 	flag.Parse()
 	drv.InstallCounters()
@@ -188,7 +190,9 @@ func main() {
 			add("rollback", 3)
 		}
 		add("gc", 4)
-		add("reopen", 1)
+		if n >= *reAfter {
+			add("reopen", 1)
+		}
 		if len(ended) > 0 {
 			add("late", 4)
 		}
@@ -211,6 +215,9 @@ func main() {
 			who = open[rng.Intn(len(open))]
 		}
 		key := keys[rng.Intn(len(keys))]
+		if *unique {
+			key = fmt.Sprintf("k%d", 1000+n)
+		}
 		level := lv[rng.Intn(len(lv))]
 		variant := rng.Intn(1 << 20)
 		lateKind := rng.Intn(6)
